@@ -88,8 +88,9 @@ Inductive case :=
 (* one speculative execution driven on a schedule the harness controlled: the label list is the
    order in which the harness let things happen; observed are every execution's event log and
    result, and what executeQuery returned *)
-| CSpec (hosts : list host) (pd : pol_desc) (spk : Z) (a0 cons0 : Z) (ls : list label)
-        (runs : list (list event * option result)) (ret : mres) (att : Z).
+| CSpec (hosts : list host) (pd : pol_desc) (spk : Z) (a0 cons0 : Z)
+        (ls1 : list label) (ret : mres) (ls2 : list label)     (* steps seen before / after executeQuery returned ret *)
+        (runs : list (list event * option result)) (att : Z).
 
 Definition seq_fuel : nat := 4000.
 
@@ -103,6 +104,28 @@ Definition mres_eqb (a b : mres) : bool :=
 Definition thread_obs_eqb (th : thread) (o : list event * option result) : bool :=
   list_eqb event_eqb (r_tr (t_run th)) (fst o) && opt_eqb result_eqb (pc_result (r_pc (t_run th))) (snd o).
 
+(* the execution whose result the main goroutine took: the first finished one holding that result *)
+Fixpoint find_winner (ths : list thread) (r : result) (i : nat) : option nat :=
+  match ths with
+  | [] => None
+  | th :: rest =>
+      match t_exit th, r_pc (t_run th) with
+      | None, PDone r' => if result_eqb r' r then Some i else find_winner rest r (S i)
+      | _, _ => find_winner rest r (S i)
+      end
+  end.
+
+(* executeQuery returns ret: a finished execution sends, the main goroutine receives; or it sees ctx.Done() *)
+Definition finish_main (p : option policy) (s : sstate) (ret : mres) : option sstate :=
+  match ret with
+  | MCtx => step p s LMainCtx
+  | MIter r =>
+      match find_winner (g_th s) r 0 with
+      | Some t => match step p s (LSend t) with Some s' => step p s' LMainRecv | None => None end
+      | None => None
+      end
+  end.
+
 Definition check (c : case) : bool :=
   match c with
   | CSeq direct hosts pd idem spk a0 cons0 outs dflt tr res att cns =>
@@ -113,14 +136,22 @@ Definition check (c : case) : bool :=
              && (s_att sh =? att) && (s_cons sh =? cns)
          | None => false
          end
-  | CSpec hosts pd spk a0 cons0 ls runs ret att =>
+  | CSpec hosts pd spk a0 cons0 ls1 ret ls2 runs att =>
       match exec_mode true spk with
       | MSpeculative _ =>
-          match run_lts (policy_of pd) (init true spk (sh0 hosts a0 cons0)) ls with
-          | Some s =>
-              list_eqb (fun th o => thread_obs_eqb th o) (g_th s) runs
-              && match g_main s with MRet m => mres_eqb m ret | _ => false end
-              && (s_att (g_sh s) =? att)
+          match run_lts (policy_of pd) (init true spk (sh0 hosts a0 cons0)) ls1 with
+          | Some s1 =>
+              match finish_main (policy_of pd) s1 ret with
+              | Some s2 =>
+                  match run_lts (policy_of pd) s2 ls2 with
+                  | Some s =>
+                      list_eqb (fun th o => thread_obs_eqb th o) (g_th s) runs
+                      && match g_main s with MRet m => mres_eqb m ret | _ => false end
+                      && (s_att (g_sh s) =? att)
+                  | None => false
+                  end
+              | None => false
+              end
           | None => false
           end
       | MSequential => false
